@@ -53,6 +53,12 @@ MISSED_FIRST = {
     "c15-writer-init-length-cast-to-int": "T2-log-reuse-offset/writer_init:64-bit",
     "c20-parse-filename-prefix-suffixes": "T5-parse-exact",
     "c11-twoiter-saves-incoming-status": "T5-twoiter-replace/who-may-replace",
+    "c07-capi-comparator-inherits-bytewise-hooks": "T6-capi-comparator",
+    "c10-property-reads-memtables-unlocked": "T10-pinning/version-pointer extended to copies of db->mem / db->imm",
+    "c17-new-manifest-opened-for-append": "T1-manifest-fresh-file (exit 2 at first: the rule treated the creating call as an anchor)",
+    "c17-manifest-damage-forgiven-without-paranoid": "T2-manifest-checksum/reporter-status",
+    "c16-empty-filter-not-given-to-policy": "T2-filter-fail-open/policy-judges-empty-filter (guard made exact)",
+    "c11-twoiter-reposition-clears-latched-status": "T4-iterator-status-read/twoiter:latched-status-never-cleared",
     "c09-open-does-not-schedule-compaction": "T11-work-scheduled",
     "c07-dbiter-skip-bytewise-equal": "T12-dbiter-composition (db_iter.c tables were added after this seed arrived)",
 }
